@@ -189,6 +189,7 @@ ESC_UPPER = [("http://a.com/?%42=1&a=2", "http://a.com/?B=1&a=2"), ("http://a.co
              ("cdn.ampproject.org:443/c/s/y.com/a", "https://cdn.ampproject.org/c/s/y.com/a"), ("x.com/?a=1&%61mp;x=1", "x.com/?a=1&amp;x=1"), ("x.com/?Q=http://y.com/a", "x.com/?q=http://y.com/a"),
              ("x.com/?Q=http://y.com/a", "y.com/a"), ("http://www.google.com/URL?Q=http%3A%2F%2Fy.com%2Fa", "http://www.google.com/url?q=http%3A%2F%2Fy.com%2Fa"),
              # an upper-case letter written as an escape INSIDE the escaped target of a redirect carrier (lower() of the carrier cannot reach it)
+             ("a.com/straße", "a.com/stra%C3%9Fe"), ("a.com/x?q=ﬁn&ſ=1", "a.com/x?q=%EF%AC%81n&%C5%BF=1"), ("a.com/a#/straße", "a.com/a#/stra%C3%9Fe"), ("http://straße.de/", "http://STRAßE.de/"),  # lower() vs casefold()
              ("a.com/ΟΣA", "a.com/ΟΣ%41"), ("a.com/x?k=ΟΔΟΣ%2Ehtml", "a.com/x?k=ΟΔΟΣ.html"),  # a capital sigma lower-cases by context
              ("http://w.com/r?url=http%3A%2F%2Fx.com%2Fp%3F%51%3DA", "http://x.com/p?Q=A"), ("http://l.example.com/l.php?u=https%3A%2F%2Fx.com%2Fp%3F%42%3D1%26a%3D2", "https://x.com/p?B=1&a=2"),
              ("http://w.com/r?next=%2F%50ath%2F%49ndex.html", "http://w.com/Path/Index.html"), ("http://w.com/r?url=http%3A%2F%2FX.com%2F%41%23%46rag", "http://x.com/A#Frag")]
